@@ -202,4 +202,52 @@ theorem lines_vs_form (s : Scene) (p : Seg × List LV) (hp : p ∈ s.lines.vs) :
   exact ⟨hv, rfl⟩
 
 
+/-! ### separated boxes -/
+
+/-- two routing boxes are separated (disjoint as closed rectangles) -/
+def Sep (a b : Rect) : Prop := a.x1 < b.x0 ∨ b.x1 < a.x0 ∨ a.y1 < b.y0 ∨ b.y1 < a.y0
+
+theorem mem_eraseIdx_ne {α} (l : List α) (i : Nat) (x : α) (hx : x ∈ l.eraseIdx i) :
+    ∃ j, j ≠ i ∧ l[j]? = some x := by
+  induction l generalizing i with
+  | nil => simp at hx
+  | cons a r ih =>
+    cases i with
+    | zero =>
+      simp at hx
+      obtain ⟨j, hj⟩ := List.getElem?_of_mem hx
+      exact ⟨j + 1, by omega, by simpa using hj⟩
+    | succ k =>
+      simp at hx
+      rcases hx with rfl | hx
+      · exact ⟨0, by omega, by simp⟩
+      · obtain ⟨j, hj, hget⟩ := ih k hx
+        exact ⟨j + 1, by omega, by simpa using hget⟩
+
+/-- for pairwise separated boxes of positive width no other box of the scan line overlaps a side in x:
+    `findFirstPointAboveAndBelow` is always in its "no overlapping shapes" case -/
+theorem separated_normal (lo hi : Rat) (rects : List Rect) (i : Nat) (v : Rect) (hv : rects[i]? = some v)
+    (hsep : ∀ (j k : Nat) (a b : Rect), j ≠ k → rects[j]? = some a → rects[k]? = some b → Sep a b)
+    (hw : v.x0 ≤ v.x1) (hh : v.y0 ≤ v.y1) (y : Rat) (hy : y = v.y0 ∨ y = v.y1) :
+    (findLimits lo hi (activeAt (rects.eraseIdx i) y) v y).minLimitMax ≥
+      (findLimits lo hi (activeAt (rects.eraseIdx i) y) v y).maxLimitMin := by
+  have hnone : (activeAt (rects.eraseIdx i) y).filter (ovl v y) = [] := by
+    rw [List.filter_eq_nil_iff]
+    intro c hc
+    unfold activeAt at hc
+    obtain ⟨hce, hcy⟩ := List.mem_filter.mp hc
+    simp only [decide_eq_true_eq] at hcy
+    obtain ⟨j, hj, hget⟩ := mem_eraseIdx_ne rects i c hce
+    have hs := hsep j i c v hj hget hv
+    unfold ovl leftOf
+    unfold Sep at hs
+    simp only [Bool.and_eq_true, Bool.not_eq_true', decide_eq_false_iff_not, not_and, Bool.not_eq_false]
+    intro h1
+    exfalso
+    rcases hy with rfl | rfl <;> grind
+  unfold findLimits
+  simp only [hnone, List.map_nil, maxL, minL, List.foldl_nil]
+  exact hw
+
+
 end AdaptaVerif.Lemmas.OrthVis
